@@ -39,7 +39,11 @@ type inlineState struct {
 	notes     []string
 }
 
+// inlinedAwayNow: the set of the program being analysed (one program per process at a time)
+var inlinedAwayNow map[*types.Func]bool
+
 func (p *Prog) applyInlining() {
+	inlinedAwayNow = nil
 	rs := p.renames()
 	if len(rs.index) == 0 {
 		return
@@ -139,6 +143,7 @@ func (p *Prog) applyInlining() {
 			p.inlinedAway[fn] = true
 		}
 	}
+	inlinedAwayNow = p.inlinedAway
 }
 
 func inlinable(fi *FuncInfo) (ok bool, tailOnly bool) {
@@ -892,7 +897,29 @@ func (st *inlineState) instantiate(pk *packagesPkg, call *ast.CallExpr, h *FuncI
 		return true
 	}, nil)
 	pre = append(pre, body.List...)
-	pre = append(pre, &ast.LabeledStmt{Label: &ast.Ident{NamePos: pos, Name: label}, Colon: pos, Stmt: &ast.EmptyStmt{Semicolon: pos, Implicit: true}})
+	// a jump to the label that directly follows it says nothing; a label nobody jumps to is dropped
+	if n := len(pre); n > 0 {
+		if blk, isBlk := pre[n-1].(*ast.BlockStmt); isBlk && len(blk.List) > 0 {
+			if br, isBr := blk.List[len(blk.List)-1].(*ast.BranchStmt); isBr && br.Tok == token.GOTO && br.Label != nil && br.Label.Name == label {
+				blk.List = blk.List[:len(blk.List)-1]
+				if len(blk.List) == 0 {
+					pre = pre[:n-1]
+				}
+			}
+		}
+	}
+	jumps := false
+	for _, ps := range pre {
+		ast.Inspect(ps, func(x ast.Node) bool {
+			if br, isBr := x.(*ast.BranchStmt); isBr && br.Tok == token.GOTO && br.Label != nil && br.Label.Name == label {
+				jumps = true
+			}
+			return !jumps
+		})
+	}
+	if jumps {
+		pre = append(pre, &ast.LabeledStmt{Label: &ast.Ident{NamePos: pos, Name: label}, Colon: pos, Stmt: &ast.EmptyStmt{Semicolon: pos, Implicit: true}})
+	}
 	st.notes = append(st.notes, "new helper "+h.Name()+" inlined at "+st.p.Pos(call.Pos()))
 	if direct {
 		return pre, nil, true
@@ -941,9 +968,16 @@ func (st *inlineState) asLiteralCall(pk *packagesPkg, call *ast.CallExpr, h *Fun
 		if len(names) == 0 || names[0].Name == "_" {
 			return
 		}
-		po := info.Defs[names[0]]
+		orig := info.Defs[names[0]]
+		po := orig
 		if f := fresh[po]; f != nil {
 			po = f
+		}
+		// the address of a variable is the same whenever it is evaluated, and so is a variable the enclosing function
+		// defines once and never assigns again: the parameter stands for the argument itself
+		if po != nil && !assignedOrAddressed(info, h.Decl.Body, orig) && st.stableArg(pk, arg, stack) {
+			substituteObj(info, body, po, arg)
+			return
 		}
 		id := st.newIdent(pk, names[0].Name, pos, po, true)
 		pre = append(pre, &ast.AssignStmt{Lhs: []ast.Expr{id}, TokPos: pos, Tok: token.DEFINE, Rhs: []ast.Expr{arg}})
@@ -1149,6 +1183,19 @@ func assignedOrAddressed(info *types.Info, body ast.Node, obj types.Object) bool
 // substituteObj replaces every use of obj in root by a fresh copy of repl.
 func substituteObj(info *types.Info, root ast.Node, obj types.Object, repl ast.Expr) {
 	astutil.Apply(root, func(c *astutil.Cursor) bool {
+		// `*p` with p standing for `&x` is x
+		if star, isStar := c.Node().(*ast.StarExpr); isStar {
+			if pid, isID := ast.Unparen(star.X).(*ast.Ident); isID && info.Uses[pid] == obj {
+				if u, isU := ast.Unparen(repl).(*ast.UnaryExpr); isU && u.Op == token.AND {
+					m := map[ast.Node]ast.Node{}
+					cp := cloneNode(u.X, m).(ast.Expr)
+					copyInfo(info, m)
+					setPos(reflect.ValueOf(cp), star.Pos())
+					c.Replace(cp)
+					return false
+				}
+			}
+		}
 		id, ok := c.Node().(*ast.Ident)
 		if !ok || info.Uses[id] != obj {
 			return true
@@ -1437,4 +1484,67 @@ func isParamObj(info *types.Info, h *FuncInfo, fresh map[types.Object]types.Obje
 		return false
 	}
 	return chk(h.Decl.Recv) || chk(h.Decl.Type.Params)
+}
+
+// stableArg: the argument of a deferred / go-started call has the same value whether it is evaluated at the statement or
+// when the callee runs: `&x` of a variable, or a plain variable (parameter, receiver, local) that the outermost
+// enclosing function assigns at most where it defines it.
+func (st *inlineState) stableArg(pk *packagesPkg, arg ast.Expr, stack []*types.Func) bool {
+	info := pk.TypesInfo
+	e := ast.Unparen(arg)
+	if u, isU := e.(*ast.UnaryExpr); isU && u.Op == token.AND {
+		_, isID := ast.Unparen(u.X).(*ast.Ident)
+		return isID
+	}
+	id, isID := e.(*ast.Ident)
+	if !isID {
+		return false
+	}
+	v, isVar := info.Uses[id].(*types.Var)
+	if !isVar || v.IsField() || (v.Pkg() != nil && v.Parent() == v.Pkg().Scope()) {
+		return false
+	}
+	if len(stack) == 0 || stack[0] == nil {
+		return false
+	}
+	outer := st.p.DeclOf(stack[0])
+	if outer == nil || outer.Decl.Body == nil {
+		return false
+	}
+	n := 0
+	ast.Inspect(outer.Decl.Body, func(x ast.Node) bool {
+		switch y := x.(type) {
+		case *ast.AssignStmt:
+			for _, l := range y.Lhs {
+				if lid, ok := ast.Unparen(l).(*ast.Ident); ok && (info.Uses[lid] == v || info.Defs[lid] == v) {
+					n++
+				}
+			}
+		case *ast.IncDecStmt:
+			if lid, ok := ast.Unparen(y.X).(*ast.Ident); ok && info.Uses[lid] == v {
+				n += 2
+			}
+		case *ast.RangeStmt:
+			for _, l := range []ast.Expr{y.Key, y.Value} {
+				if lid, ok := l.(*ast.Ident); ok && (info.Uses[lid] == v || info.Defs[lid] == v) {
+					n += 2
+				}
+			}
+		case *ast.UnaryExpr:
+			if lid, ok := ast.Unparen(y.X).(*ast.Ident); ok && y.Op == token.AND && info.Uses[lid] == v {
+				n += 2
+			}
+		}
+		return true
+	})
+	isParam := false
+	sig := stack[0].Type().(*types.Signature)
+	for i := 0; i < sig.Params().Len(); i++ {
+		isParam = isParam || sig.Params().At(i) == v
+	}
+	isParam = isParam || sig.Recv() == v
+	if isParam {
+		return n == 0
+	}
+	return n <= 1
 }
